@@ -47,6 +47,7 @@ impl Oracle for C16 {
         };
         let Some(pw) = w.w_index.get(&wref).map(|i| w.welcomes[*i].clone()) else { return };
         let mut viols: Vec<(&str, String)> = vec![];
+        let mut stale_queue: Option<String> = None;
         let active_before: Vec<String> = w.prev_view.groups.iter().filter(|(_, g)| g.record.as_ref().map(|r| r.state == "active").unwrap_or(false)).map(|(k, _)| k.clone()).collect();
         match &rec.step.op {
             Op::ProcessWelcome { .. } | Op::DeclineWelcome { .. } => {
@@ -102,7 +103,13 @@ impl Oracle for C16 {
                 let gv = w.gview(node, pw.g);
                 let got = gv.and_then(|g| g.mls.as_ref()).map(|m| m.authenticator.clone());
                 if want.is_some() && got != want {
-                    viols.push(("joined-state-differs-from-inviter", format!("n{node} g{}: joined authenticator {:?}, inviter's post-commit state {:?}", pw.g, got.map(|x| x[..8].to_string()), want.map(|x| x[..8].to_string()))));
+                    viols.push(("joined-state-differs-from-inviter", format!("n{node} g{}: joined authenticator {:?}, inviter's post-commit state {:?}", pw.g, got.clone().map(|x| x[..8].to_string()), want.clone().map(|x| x[..8].to_string()))));
+                }
+                // the state joined is the inviter's state right after its commit: nothing is queued
+                // there; proposals the joiner still holds from an earlier membership are not part of it
+                let queued: Vec<String> = gv.and_then(|g| g.mls.as_ref()).map(|m| m.pending_proposals.iter().map(|p| format!("{p:?}")).collect()).unwrap_or_default();
+                if got == want && !queued.is_empty() {
+                    stale_queue = Some(format!("n{node} g{}: {} proposal(s) queued right after joining: {:?}", pw.g, queued.len(), queued));
                 }
                 if let Some(r) = gv.and_then(|g| g.record.as_ref()) {
                     if r.self_update != "required" || r.state != "active" {
@@ -117,6 +124,10 @@ impl Oracle for C16 {
                 }
             }
             _ => {}
+        }
+        if let Some(d) = stale_queue {
+            w.probe("joined_with_proposals_of_an_earlier_membership");
+            viols.push(("joined-with-proposals-queued", d));
         }
         let mut seen = BTreeSet::new();
         for (clause, detail) in viols {
